@@ -44,8 +44,9 @@ def run(ctx):
         cases = [json.load(open(ctx.replay))["case"]]
     for i, c in enumerate(cases):
         c["case"] = i + 1
-    deep = [c for c in cases if c["c"]["kind"] in ("path", "cycle")]
-    flat = [c for c in cases if c["c"]["kind"] in ("mask", "frame")]
+    # repeated cycles (up to 200000 levels) run one child process per case; paths of a few edges cannot exhaust the stack
+    deep = [c for c in cases if c["c"]["kind"] == "cycle"]
+    flat = [c for c in cases if c["c"]["kind"] in ("path", "mask", "frame")]
     nverd = 0
     obs_all = []
     if deep:
@@ -87,7 +88,7 @@ def run(ctx):
             ctx.sample({"name": c["name"], "root": c["root"], "opts": c["opts"]["nm"], "segs": c["segs"], "must_reject": c["must"]})
 
     # ---- secondary part: the random driver (seeded mutations of spec-generated valid encodings)
-    nb = 60 if ctx.quick else 1200
+    nb = 60 if ctx.quick else 800
     per = 100 if ctx.quick else 300
     g = run_tlc(ctx.sub("gen_bases"), "GenCodecRt", {"Lvl": 0 if ctx.quick else 1}, spec="Spec", invariants=["Emit"], workers=4, timeout=900)
     if g.error:
@@ -130,7 +131,7 @@ def run(ctx):
         "every simple cycle repeated depth-1, depth, depth+1 and 200000 times (bare and embedded in CallRequest / WriteRequest / ServiceFault), "
         "the first byte 0..255 of Variant, DataValue, DiagnosticInfo, NodeId, ExpandedNodeId, LocalizedText, ExtensionObject and 4 UA TCP frames; "
         "options default, minimal and depth 3. TLC checks the specified decoder on each (depth budget, accepted exactly when the locks fit, "
-        "allocation bound); the harness writes the bytes and decodes them in a child process on a 2 MiB stack with a counting allocator; the "
+        "allocation bound); the harness writes the bytes and decodes them on a 2 MiB stack with a counting allocator (repeated cycles and mutation batches: one child process each, abort / timeout are observations); the "
         "TLA+ predicate demands outcome in {value, error}, rejection when a type is nested in itself more often than the depth limit, and peak "
         "allocation <= AllocBound(limits, input length). distinct_nontrivial = distinct (root, options, bytes). Secondary part (random driver, "
         "reported under random_driver, %d mutants): seeded mutations of valid encodings, judged by the same predicate per batch. NOT covered: "
